@@ -1,19 +1,24 @@
 import NasdaqModel.Driver.Sexp
 import NasdaqModel.Model.GenHistory
 import NasdaqModel.Witness.C17
+import NasdaqModel.Witness.C17Opts
+import NasdaqModel.Witness.C17Phases
 /-
 Line protocol for Model/GenHistory.lean.
 
   gen.hist <current|actual|fixed> <event>*
      event  = newproc
-            | (soup <itch|ouch|sqf> (<id> <none | ((name tok)*)> (<use>*) (<msgid>*)) <opts>)
+            | (soup <itch|ouch|sqf> (<id> <none | ((name tok)*)> (<use>*) (<msgid>*)) <opts> [<true|false>])
+                                                   -- the optional last element: `--override-messages` / `--no-override-messages` given
+            | (construct <k> <soup, fix or asn1 event>)          -- the entry point up to its call of generate(): generator object k
+            | (generate <k>)                                     -- generate() of generator object k
             | (fix (<id> <version> (<field>*) (<msgfield>*) (<tree>*) (<count>*)) <opts>)      tree = (<name> (<field>*) (<tree>*))
             | (asn1 ((<fname> <content>)*) <pdu> <package> <opts>)
             | (newproj <t> <name> ((<app> <proto>)*))
             | (edit <dir> <fname> <n>)
      opts   = (<app> <prefix> <true|false> <dir>)
      dir    = (out n) | (proj t name) | (pkg t name) | (app t name app)          strings are code-point lists
-  answer: ok <step>*      step = newproc | (<ok | err-E> <ok | err-E | na> <cfg-ok|cfg-bad|na> ((<dir> <fname> (<chunk>*))*))
+  answer: ok <step>*      step = newproc | (<ok | err-E | na-noobject> <ok | err-E | na> <cfg-ok|cfg-bad|na> ((<dir> <fname> (<chunk>*))*))
   where the last component is the whole file system after the step and every chunk is printed injectively.
 -/
 namespace NasdaqModel.Driver.GenHistoryD
@@ -37,8 +42,8 @@ def implOf : Sexp → Option Impl
   | .atom "sqf" => some .sqf
   | _ => none
 
-def optsOf : Sexp → Option GenOpts
-  | .list [a, p, i, d] => do some ⟨← asNats a, ← asNats p, ← asBool i, ← dirOf d⟩
+def optsOf (override : Bool) : Sexp → Option GenOpts
+  | .list [a, p, i, d] => do some ⟨← asNats a, ← asNats p, ← asBool i, ← dirOf d, override⟩
   | _ => none
 
 def pairOf : Sexp → Option (Nat × Nat)
@@ -63,28 +68,40 @@ def fixSpecOf : Sexp → Option FixSpec
     some ⟨← asNat i, ← asNat v, ← asNats f, ← asNats mf, ← g.mapM treeOf, ← asNats c⟩
   | _ => none
 
-def evOf : Sexp → Option Ev
-  | .atom "newproc" => some .newProcess
-  | .list [.atom "soup", impl, spec, o] => do some (.inv (.soup (← implOf impl) (← soupSpecOf spec) (← optsOf o)))
-  | .list [.atom "fix", spec, o] => do some (.inv (.fix (← fixSpecOf spec) (← optsOf o)))
+def invOf : Sexp → Option Inv
+  -- the entry points' default is `--override-messages`
+  | .list [.atom "soup", impl, spec, o] => do some (.soup (← implOf impl) (← soupSpecOf spec) (← optsOf true o))
+  | .list [.atom "soup", impl, spec, o, ov] => do some (.soup (← implOf impl) (← soupSpecOf spec) (← optsOf (← asBool ov) o))
+  | .list [.atom "fix", spec, o] => do some (.fix (← fixSpecOf spec) (← optsOf true o))
   | .list [.atom "asn1", .list files, pdu, pk, o] => do
     let fs ← files.mapM fun f => match f with
       | .list [n, c] => do some (← asNats n, ← asNat c)
       | _ => none
-    some (.inv (.asn1 ⟨fs⟩ (← asNats pdu) (← asNats pk) (← optsOf o)))
+    some (.asn1 ⟨fs⟩ (← asNats pdu) (← asNats pk) (← optsOf true o))
   | .list [.atom "newproj", t, name, .list apps] => do
     let as ← apps.mapM fun a => match a with
       | .list [n, p] => do some (← asNats n, ← implOf p)
       | _ => none
-    some (.inv (.newProject (← asNat t) (← asNats name) as))
-  | .list [.atom "edit", d, f, n] => do some (.inv (.userEdit (← dirOf d, ← asNats f) (← asNat n)))
+    some (.newProject (← asNat t) (← asNats name) as)
+  | .list [.atom "edit", d, f, n] => do some (.userEdit (← dirOf d, ← asNats f) (← asNat n))
   | _ => none
+
+def evOf : Sexp → Option Ev
+  | .atom "newproc" => some .newProcess
+  | .list [.atom "construct", k, i] => do
+    let i ← invOf i
+    if i.isGen then some (.construct (← asNat k) i) else none
+  | .list [.atom "generate", k] => do some (.generate (← asNat k))
+  | e => do some (.inv (← invOf e))
 
 def semOf : Sexp → Option Semantics
   | .atom "current" => some current
   | .atom "actual" => some actual
   | .atom "fixed" => some fixed
   | .atom "fixedGen" => some fixedGen
+  -- the library with one of the two "optimisations" the model can exhibit (for trying a patched checkout)
+  | .atom "clearInPlace" => some { current with rebindContexts := false }
+  | .atom "cachedTypes" => some { current with freshTypeTables := false }
   | _ => none
 
 /-! printing -/
@@ -108,7 +125,7 @@ def ctxTo (c : GCtx) : Sexp :=
 def chunkTo : Chunk → Sexp
   | .soupModule impl app sid msgs res => .list [.atom "soupModule", implTo impl, ofNats app, nat sid, ofNats msgs, ofNats res]
   | .initLine m => .list [.atom "initLine", ofNats m]
-  | .fixFields sid f c => .list [.atom "fixFields", nat sid, ofNats f, ofNats c]
+  | .fixFields sid f c ts => .list [.atom "fixFields", nat sid, ofNats f, ofNats c, .list (ts.map fun t => .atom (toString (repr t)))]
   | .fixGroups mp ctxs => .list [.atom "fixGroups", ofNats mp, .list (ctxs.map ctxTo)]
   | .fixBodies mp sid f top => .list [.atom "fixBodies", ofNats mp, nat sid, ofNats f, pairsTo top]
   | .fixMessages mp sid f top => .list [.atom "fixMessages", ofNats mp, nat sid, ofNats f, pairsTo top]
@@ -129,19 +146,24 @@ def boolTo (b : Bool) : Sexp := .atom (if b then "true" else "false")
 def optsTo (o : GenOpts) : Sexp := .list [ofNats o.app, ofNats o.pfx, boolTo o.init, dirTo o.dir]
 partial def treeTo : GTree → Sexp
   | .mk n f ks => .list [nat n, ofNats f, .list (ks.map treeTo)]
-def evTo : Ev → Sexp
-  | .newProcess => .atom "newproc"
-  | .inv (.soup impl s o) =>
-    .list [.atom "soup", implTo impl, .list [nat s.id, (match s.root with | none => .atom "none" | some r => pairsTo r),
-      ofNats s.uses, ofNats s.msgs], optsTo o]
-  | .inv (.fix s o) =>
+def invTo : Inv → Sexp
+  | .soup impl s o =>
+    .list ([.atom "soup", implTo impl, .list [nat s.id, (match s.root with | none => .atom "none" | some r => pairsTo r),
+      ofNats s.uses, ofNats s.msgs], optsTo o] ++ (if o.override then [] else [boolTo false]))
+  | .fix s o =>
     .list [.atom "fix", .list [nat s.id, nat s.version, ofNats s.fields, ofNats s.msgFields, .list (s.groups.map treeTo),
       ofNats s.counts], optsTo o]
-  | .inv (.asn1 s pdu pk o) =>
+  | .asn1 s pdu pk o =>
     .list [.atom "asn1", .list (s.files.map fun f => .list [ofNats f.1, nat f.2]), ofNats pdu, ofNats pk, optsTo o]
-  | .inv (.newProject t name apps) =>
+  | .newProject t name apps =>
     .list [.atom "newproj", nat t, ofNats name, .list (apps.map fun a => .list [ofNats a.1, implTo a.2])]
-  | .inv (.userEdit p n) => .list [.atom "edit", dirTo p.1, ofNats p.2, nat n]
+  | .userEdit p n => .list [.atom "edit", dirTo p.1, ofNats p.2, nat n]
+
+def evTo : Ev → Sexp
+  | .newProcess => .atom "newproc"
+  | .inv i => invTo i
+  | .construct k i => .list [.atom "construct", nat k, invTo i]
+  | .generate k => .list [.atom "generate", nat k]
 
 def outcomeTo : Except Err Unit → Sexp
   | .ok _ => .atom "ok"
@@ -149,6 +171,14 @@ def outcomeTo : Except Err Unit → Sexp
 
 def stepOut (sem : Semantics) (w : World) : Ev → World × Sexp
   | .newProcess => (step sem w .newProcess, .atom "newproc")
+  | .construct k i =>
+    let r := construct sem w k i
+    (r.1, .list [outcomeTo r.2, .atom "na", .atom "na", fsTo r.1.fs])
+  | .generate k =>
+    let r := generate sem w k
+    match r.2 with
+    | .ok _ => (r.1, .list [.atom "ok", outcomeTo (importAfterGenerate sem w k), .atom "na", fsTo r.1.fs])
+    | .error _ => (r.1, .list [.atom "na-noobject", .atom "na", .atom "na", fsTo r.1.fs])
   | .inv i =>
     let r := invoke sem w i
     let imp : Sexp := match i.isGen, r.2 with
@@ -174,12 +204,12 @@ def handle (op : String) (args : List Sexp) : Option String :=
     let evs ← evs.mapM evOf
     some ("ok " ++ " ".intercalate ((runOut sem w0 evs).map Sexp.toStr))
   | "witness", [.atom "C17"] =>
-    some (" ".intercalate (Witness.C17.histories.map fun h =>
+    some (" ".intercalate ((Witness.C17.histories ++ Witness.C17Opts.histories ++ Witness.C17Phases.histories).map fun h =>
       (Sexp.list (.atom h.1 :: h.2.map evTo)).toStr))
   | "gen.flags", [sem] => do
     let s ← semOf sem
     let m : Mode → String := fun m => match m with | .append => "append" | .truncate => "truncate" | .ifAbsent => "ifAbsent"
-    some s!"genMode={m s.genMode} resetFieldDefs={s.resetFieldDefs} resetContexts={s.resetContexts} resetCounter={s.resetCounter} pyprojMode={m s.pyprojMode} toxMode={m s.toxMode}"
+    some s!"genMode={m s.genMode} resetFieldDefs={s.resetFieldDefs} resetContexts={s.resetContexts} resetCounter={s.resetCounter} pyprojMode={m s.pyprojMode} toxMode={m s.toxMode} rebindContexts={s.rebindContexts} freshTypeTables={s.freshTypeTables}"
   | "gen.current", [] =>
     some (if current = actual then "actual" else if current = fixed then "fixed" else if current = fixedGen then "fixedGen" else "other")
   | _, _ => none
